@@ -56,6 +56,115 @@ def _has_fold(e):
     return False
 
 
+def _resolve_const(ctx, f, flow, e, depth=0):
+    """The constant value `e` denotes, or None: a display; a local / module / class constant bound once to one; `<dict>.values()`;
+    a call (without arguments) of a module-level function that folds to a constant (a table built at import time)."""
+    from .. import consteval
+    if depth > 5 or e is None:
+        return None
+    if isinstance(e, ast.Call) and isinstance(e.func, ast.Attribute) and e.func.attr in ("values", "keys", "items") and not e.args:
+        v = _resolve_const(ctx, f, flow, e.func.value, depth + 1)
+        return list(getattr(v, e.func.attr)()) if isinstance(v, dict) else None
+    try:
+        return ast.literal_eval(e)
+    except Exception:
+        pass
+    if isinstance(e, (ast.Tuple, ast.List)):
+        vals = [_resolve_const(ctx, f, flow, x, depth + 1) for x in e.elts]
+        return None if any(v is None for v in vals) else (tuple(vals) if isinstance(e, ast.Tuple) else vals)
+    node = None
+    if isinstance(e, ast.Name):
+        ds = [d for d in flow.all_defs.get(e.id, []) if d.kind == "assign"]
+        if len(ds) == 1 and len(flow.all_defs.get(e.id, [])) == 1:
+            node = ds[0].value
+        elif e.id not in flow.all_defs:
+            node = f.module.globals.get(e.id)
+    elif isinstance(e, ast.Attribute) and isinstance(e.value, ast.Name) and f.cls is not None and e.value.id in ("self", "cls", f.cls.name):
+        for k in ctx.repo.mro(f.cls.name):
+            if e.attr in ctx.repo.cls(k).class_attrs:
+                node = ctx.repo.cls(k).class_attrs[e.attr]
+                break
+    elif isinstance(e, ast.Call) and isinstance(e.func, ast.Name) and not e.args and not e.keywords:
+        fn = ctx.repo.funcs.get("%s.%s" % (f.module.stem, e.func.id))
+        if fn is not None and not fn.params():
+            funcs = {q.split(".", 1)[1]: g.node for q, g in ctx.repo.funcs.items() if q.startswith(f.module.stem + ".")}
+            try:
+                kind, val = consteval.call(fn.node, functions=funcs, globals=dict(f.module.globals))
+            except consteval.Unsupported:
+                return None
+            ctx.touch(fn)
+            return val if kind == "return" else None
+    if node is None:
+        return None
+    return _resolve_const(ctx, f, flow, node, depth + 1)
+
+
+def _as_groups(v):
+    """a partition given as {key: [names]}, [[names], ...] or {name: family} -> list of frozensets of upper-cased names"""
+    if isinstance(v, dict) and v and all(isinstance(x, (list, tuple, set, frozenset)) for x in v.values()):
+        v = list(v.values())
+    if isinstance(v, dict) and v and all(isinstance(k, str) and isinstance(x, str) for k, x in v.items()):
+        inv = {}
+        for k, x in v.items():
+            inv.setdefault(x, set()).add(k)
+        return [frozenset(g) for g in inv.values()], [k for k in v]
+    if isinstance(v, (list, tuple)) and v and all(isinstance(g, (list, tuple, set, frozenset)) and all(isinstance(x, str) for x in g) for g in v):
+        return [frozenset(g) for g in v], [x for g in v for x in g]
+    return None
+
+
+def _basic_gpr_guard(ctx, f, flow, r, A, B):
+    """When `return True` at r is guarded by 'A and B lie in the same alias group', the alias table behind that guard:
+    (groups, all names as written, node) - else None. Idioms: `A in g and B in g` with g running over the table (or being
+    one literal group of it, e.g. after a loop over the table was written out), and `M.get(A) == M.get(B)` (not None) for
+    a name -> family map M."""
+    nf = C.norm_fact_nodes(r)
+    ins = {}
+    for e, pol in nf:
+        if pol and isinstance(e, ast.Compare) and len(e.ops) == 1 and isinstance(e.ops[0], ast.In) and U(e.left) in (A, B):
+            ins.setdefault(U(e.comparators[0]), {})[U(e.left)] = e.comparators[0]
+    for g, who in ins.items():
+        if set(who) != {A, B}:
+            continue
+        gnode = who[A]
+        lit = None
+        try:
+            lit = ast.literal_eval(gnode)
+        except Exception:
+            pass
+        if lit is not None:
+            return ("literal", frozenset(lit), gnode)
+        loop = C.enclosing_loop(r)
+        while loop is not None and not (isinstance(loop, ast.For) and U(loop.target) == g):
+            loop = C.enclosing_loop(loop)
+        if loop is not None:
+            v = _resolve_const(ctx, f, flow, loop.iter)
+            gr = _as_groups(v) if v is not None else None
+            if gr is not None:
+                return ("table", gr, loop.iter)
+    # name -> family map
+    def fam_of(e):
+        e = flow.subst(e) if isinstance(e, ast.Name) else e
+        if isinstance(e, ast.Call) and isinstance(e.func, ast.Attribute) and e.func.attr == "get" and len(e.args) == 1:
+            return U(e.func.value), U(e.args[0]), e.func.value
+        if isinstance(e, ast.Subscript):
+            return U(e.value), U(e.slice), e.value
+        return None
+    for e, pol in nf:
+        if pol and isinstance(e, ast.Compare) and len(e.ops) == 1 and isinstance(e.ops[0], ast.Eq):
+            l, rr = fam_of(e.left), fam_of(e.comparators[0])
+            if l and rr and l[0] == rr[0] and {l[1], rr[1]} == {A, B}:
+                # one of the two looked-up families must be known to exist (None == None would make strangers aliases)
+                guarded = any((not pol2) and C.is_none_test(e2) is not None and fam_of(e2.left) is not None
+                              and fam_of(e2.left)[0] == l[0] for e2, pol2 in nf if isinstance(e2, ast.Compare)) or \
+                    (isinstance(e.left, ast.Subscript) and isinstance(e.comparators[0], ast.Subscript))
+                v = _resolve_const(ctx, f, flow, l[2])
+                gr = _as_groups(v) if v is not None else None
+                if gr is not None:
+                    return ("map" if guarded else "map-unguarded", gr, l[2])
+    return None
+
+
 def _x86(ctx):
     spec = _spec("x86_regs.json")
     f = ctx.func("ParserX86ATT.is_reg_dependend_of")
@@ -63,13 +172,39 @@ def _x86(ctx):
     pa, pb = f.params()[1], f.params()[2]
     # ---- R1 alias table
     ctx.rule("R1", "x86 alias table = architectural GPR partition; numbered regex; vector classes")
+    na_ = [d for d in flow.all_defs if any(U(x.value or ast.Constant(None)).startswith(pa + ".name.") for x in flow.all_defs[d])]
+    nb_ = [d for d in flow.all_defs if any(U(x.value or ast.Constant(None)).startswith(pb + ".name.") for x in flow.all_defs[d])]
+    def inline_name(prm):
+        """the case-folded name used in place (no local holds it): `<prm>.name.upper()`"""
+        for x in ast.walk(f.node):
+            if isinstance(x, ast.Call) and _has_fold(x) and _strip_fold(x) == prm + ".name":
+                return U(x)
+        return prm + ".name"
+    A_, B_ = (na_[0] if na_ else inline_name(pa)), (nb_[0] if nb_ else inline_name(pb))
     tables = [(n, b) for n, b in pm.find("M_t = M_d", f.node) if isinstance(b["M_d"], ast.Dict)]
-    if len(tables) != 1:
-        ctx.broken("R1: expected one literal alias table in %s, found %d" % (f.qname, len(tables)))
-    tnode, tb = tables[0]
-    tname = U(tb["M_t"])
-    table = C.literal(tb["M_d"], "alias table")
-    groups = [frozenset(x.upper() for x in v) for v in table.values()]
+    tname, table_names = None, []
+    if len(tables) == 1:
+        tnode, tb = tables[0]
+        tname = U(tb["M_t"])
+        table = C.literal(tb["M_d"], "alias table")
+        groups = [frozenset(x.upper() for x in v) for v in table.values()]
+        table_names = [r for v in table.values() for r in v]
+    else:
+        # the table lives elsewhere (class / module constant, generated at import time) or the loop over it is written out:
+        # take it from the guards of the `return True` statements
+        found = [(_basic_gpr_guard(ctx, f, flow, r, A_, B_), r) for r in ast.walk(f.node) if isinstance(r, ast.Return)
+                 and isinstance(r.value, ast.Constant) and r.value.value is True]
+        found = [(g, r) for g, r in found if g is not None]
+        whole = [g for g, r in found if g[0] != "literal"]
+        lits = [g for g, r in found if g[0] == "literal"]
+        if whole:
+            groups, table_names = [frozenset(x.upper() for x in gg) for gg in whole[0][1][0]], list(whole[0][1][1])
+            tnode = whole[0][2]
+        elif lits:
+            groups, table_names = [frozenset(x.upper() for x in g[1]) for g in lits], [x for g in lits for x in g[1]]
+            tnode = lits[0][2]
+        else:
+            ctx.broken("R1: expected one literal alias table in %s, found %d" % (f.qname, len(tables)))
     want = [frozenset(v) for v in spec["gpr_families"].values()]
     flat = [r for g in groups for r in g]
     ctx.check(len(flat) == len(set(flat)), "R1", "alias groups are disjoint", f.where(tnode),
@@ -95,7 +230,7 @@ def _x86(ctx):
                     "alias group %s is not an architectural family" % sorted(g), f.qname,
                     "extra alias group %s" % sorted(g))
     # table names are upper case and compared with upper-cased names
-    upper_ok = all(r == r.upper() for v in table.values() for r in v)
+    upper_ok = all(r == r.upper() for r in table_names)
     ctx.check(upper_ok, "R1", "alias table is upper case", f.where(tnode),
               "alias table holds names that are not upper case while the compared names are upper-cased",
               f.qname, "alias table case")
@@ -160,17 +295,22 @@ def _x86_returns(ctx, f, flow, pa, pb, tname, vcls, spec):
     # canonical names of the two normalised register names
     na = [d for d in flow.all_defs if any(U(x.value or ast.Constant(None)).startswith(pa + ".name.") for x in flow.all_defs[d])]
     nb = [d for d in flow.all_defs if any(U(x.value or ast.Constant(None)).startswith(pb + ".name.") for x in flow.all_defs[d])]
-    A = na[0] if na else pa + ".name"
-    B = nb[0] if nb else pb + ".name"
+    def inline_name(prm):
+        for x in ast.walk(f.node):
+            if isinstance(x, ast.Call) and _has_fold(x) and _strip_fold(x) == prm + ".name":
+                return U(x)
+        return prm + ".name"
+    A = na[0] if na else inline_name(pa)
+    B = nb[0] if nb else inline_name(pb)
     for r in rets:
         val = r.value
         if not (isinstance(val, ast.Constant) and val.value is True):
             if isinstance(val, ast.Constant) and val.value is False:
                 continue
-            ctx.node_bad("R4", f, r, "return value is not a literal True/False; the decision structure is not "
-                         "one the rule understands")
+            ctx.unknown("R4", U(r)[:100], f.where(r), "return value is not a literal True/False; the decision structure is not "
+                        "one the rule understands")
             continue
-        facts = [(U(e), pol) for e, pol in C.facts_at(r)]
+        facts = [(U(e), pol) for e, pol in C.norm_fact_nodes(r)]
         pos = {t for t, pol in facts if pol}
         fam = None
         if {"%s == %s" % (A, B)} & pos or {"%s == %s" % (B, A)} & pos:
@@ -187,6 +327,13 @@ def _x86_returns(ctx, f, flow, pa, pb, tname, vcls, spec):
                       "dropping the first character makes %s alias; architecturally only %s overlap" % (
                           [sorted(x) for x in same if len(x) > 1], spec["vector_overlapping"]),
                       f.qname, "vector suffix classes")
+        elif tname is None and {"self.is_basic_gpr(%s)" % pa, "self.is_basic_gpr(%s)" % pb} <= pos \
+                and _basic_gpr_guard(ctx, f, flow, r, A, B) is not None:
+            kind_ = _basic_gpr_guard(ctx, f, flow, r, A, B)[0]
+            if kind_ == "map-unguarded":
+                ctx.node_bad("R4", f, r, "the families of the two names are compared without requiring that they exist: two names "
+                             "outside the table both map to None and compare equal")
+            fam = "basic gpr"
         elif ({"self.is_basic_gpr(%s)" % pa, "self.is_basic_gpr(%s)" % pb} <= pos
               and any(t.startswith(A + " in ") for t in pos) and any(t.startswith(B + " in ") for t in pos)):
             ga = [t.split(" in ", 1)[1] for t in pos if t.startswith(A + " in ")]
@@ -207,6 +354,9 @@ def _x86_returns(ctx, f, flow, pa, pb, tname, vcls, spec):
                 if isinstance(e, ast.IfExp) and isinstance(e.orelse, ast.Constant) and e.orelse.value is None \
                         and C.is_call_to(e.test, "re.match", "re.fullmatch") and U(e.body) == U(e.test) + ".group(1)":
                     return U(e.test.args[1]), True
+                if pm.match("M_m.group(1)", e) is not None and C.is_call_to(pm.match("M_m.group(1)", e)["M_m"], "re.match", "re.fullmatch"):
+                    mc = pm.match("M_m.group(1)", e)["M_m"]     # the match used in place: its own text is the existence test
+                    return U(mc.args[1]), U(mc)
                 if pm.match("M_m.group(1)", e) is not None and isinstance(pm.match("M_m.group(1)", e)["M_m"], ast.Name):
                     mv = pm.match("M_m.group(1)", e)["M_m"].id
                     ds = [d for d in flow.all_defs.get(mv, []) if d.value is not None and C.is_call_to(d.value, "re.match", "re.fullmatch")]
@@ -226,7 +376,8 @@ def _x86_returns(ctx, f, flow, pa, pb, tname, vcls, spec):
                         notnone = True
                     if t2 is not None and t2[1] != pol2 and isinstance(e2.left, (ast.IfExp, ast.Name)) and index_of(e2.left) is not None:
                         notnone = True
-                both_truthy = all(isinstance(x[1], str) and x[1] in pos for x in (ia, ib))
+                nfacts = {(U(e3), p3) for e3, p3 in C.norm_fact_nodes(r)}
+                both_truthy = all(isinstance(x[1], str) and (x[1] in pos or (x[1] + " is None", False) in nfacts) for x in (ia, ib))
                 if notnone or both_truthy:
                     fam = "numbered gpr"
                 else:
@@ -267,6 +418,8 @@ def _x86_returns(ctx, f, flow, pa, pb, tname, vcls, spec):
                 t = U(side)
                 if ".group(" in t or t == tname or isinstance(side, ast.Constant):
                     continue
+                if isinstance(side, (ast.Tuple, ast.List, ast.Set)) and all(isinstance(x, ast.Constant) for x in side.elts):
+                    continue    # a literal group of names (the alias table written in place)
                 if isinstance(side, ast.Name) and side.id not in (A, B) and not any(
                         ".name" in x for x in flow.origin_text(side)):
                     continue  # e.g. the loop variable over alias groups
@@ -322,6 +475,18 @@ def _aarch64(ctx):
                 used[c.id] = classes[c.id]
             elif isinstance(c, ast.Constant) and isinstance(c.value, str):
                 used[U(c)] = c.value
+            elif isinstance(c, (ast.Name, ast.Attribute)):
+                # a class / module constant, or the variable of a loop over the classes
+                v = _resolve_const(ctx, f, flow, c)
+                if isinstance(v, str):
+                    used[U(c)] = v
+                elif isinstance(c, ast.Name):
+                    for lp in C.enclosing_loops(n):
+                        if isinstance(lp, ast.For) and U(lp.target) == c.id:
+                            vs = _resolve_const(ctx, f, flow, lp.iter)
+                            if isinstance(vs, (list, tuple)) and all(isinstance(x, str) for x in vs):
+                                for i_, x in enumerate(vs):
+                                    used["%s#%d" % (c.id, i_)] = x
     got = [frozenset(v) for v in used.values()]
     want = [frozenset(c) for c in spec["classes"]]
     for w in want:
@@ -353,7 +518,7 @@ def _aarch64(ctx):
         if isinstance(v, ast.Constant) and v.value is False:
             continue
         if not (isinstance(v, ast.Constant) and v.value is True):
-            ctx.node_bad("R4", f, r, "return value is not a literal True/False")
+            ctx.unknown("R4", U(r)[:100], f.where(r), "return value is not a literal True/False")
             continue
         facts = C.norm_fact_nodes(r)
         pos = [e for e, pol in facts if pol]
@@ -366,6 +531,9 @@ def _aarch64(ctx):
         if name_eq and common:
             for c in common:
                 seen.add(frozenset(used.get(c, "")))
+                for k_, v_ in used.items():       # c is the variable of a loop over the classes: one positive rule per class
+                    if k_.startswith(c + "#"):
+                        seen.add(frozenset(v_))
             ctx.node_ok("R4", f, r, "return True under equal number and both prefixes in %s" % sorted(common))
             for e in name_eq:
                 folded = _has_fold(e.left) and _has_fold(e.comparators[0])
